@@ -57,6 +57,7 @@ type Case struct {
 	Ints   []int   `json:"ints,omitempty"`
 	Strs   []BStr  `json:"strs,omitempty"`
 	Kind   string  `json:"kind,omitempty"`
+	Steps  []Step  `json:"steps,omitempty"`
 	// filled in when a violation is saved
 	Clause string `json:"violated_clause,omitempty"`
 	Output BStr   `json:"observed_output,omitempty"`
